@@ -59,13 +59,13 @@ NotValid      == {"wrongXslNamespaceRoot", "unknownXslElement", "unknownXslAttri
                   "avtUnbalanced", "nonExpression", "undefinedVariable"}
 (* well-formed and valid: must succeed                                                                      *)
 MustSucceed   == {"seed", "wrongXslNamespaceInner", "numberLiteral", "numberFormat", "numberValue", "longName",
-                  "cdataBracket", "paramExpression", "manyDecimalFormats", "manyDefaultCounts"}
+                  "cdataBracket", "paramExpression", "manyDecimalFormats", "manyDefaultCounts", "manyLiveStrings"}
 (* nesting depth d: a program / document / expression of any depth is valid; an implementation may impose a *)
 (* limit above depth 100 but must then REPORT it                                                            *)
 DeepClasses   == {"deepDocument", "deepTemplateBody", "deepParens", "deepPredicates", "deepSteps"}
 (* the Recommendation leaves the outcome open (XSLT 16.1: unsupported output encoding "may signal an error"; *)
 (* characters outside the XML Char production inside an XPath expression; bytes produced by the fuzzer)     *)
-Open          == {"unknownOutputEncoding", "xpathIllegalChar", "fuzz", "xmlDeclVersion"}
+Open          == {"unknownOutputEncoding", "xpathIllegalChar", "fuzz", "xmlDeclVersion", "dotSegmentHref"}
 
 Classes == NotWellFormed \cup NotValid \cup MustSucceed \cup DeepClasses \cup Open
 
